@@ -852,3 +852,51 @@ func noLimitRule(R string) RuleFunc {
 		c.OKd(R, "inventory", "-", core.F("%d functions scanned", funcs), core.F("%d size or depth limits", n))
 	}
 }
+
+var constFmtTable = map[string]string{
+	"errs.f:fmt.Sprintf": "the format is errorFormat[code], the table whose verbs and arities C16.fmt checks against every call site; the arguments are passed as arguments, never spliced into the format",
+}
+
+// constFmtRule: messages are arguments, never formats.
+func constFmtRule(R string) RuleFunc {
+	return func(c *core.Ctx) {
+		c.Rule(R, "every call of a fmt formatting function (Sprintf, Errorf, Fprintf, Printf, Fscanf...) in the module has a compile-time constant format string (or is the one tabled table lookup of errs.Code.F). A format built at run time from a message, a key or a byte of the input (`fmt.Sprintf(prefix+message+\"...\", ...)`) is re-interpreted: an input containing `%` renders as `%!d(string=...)`/`%!s(MISSING)` and loses its line number and quoted line")
+		c.Floor(R, 10)
+		n := 0
+		for _, cs := range c.P.Calls() {
+			o := core.Callee(cs.Pkg, cs.Call)
+			if o == nil || o.Pkg() == nil || o.Pkg().Path() != "fmt" {
+				continue
+			}
+			idx := -1
+			switch o.Name() {
+			case "Sprintf", "Errorf", "Printf":
+				idx = 0
+			case "Fprintf", "Sscanf", "Fscanf", "Appendf":
+				idx = 1
+			}
+			if idx < 0 || len(cs.Call.Args) <= idx {
+				continue
+			}
+			n++
+			fn := "package init"
+			if cs.Decl != nil {
+				fn = core.DeclName(cs.Pkg, cs.Decl)
+			}
+			key := fn + ":fmt." + o.Name()
+			pos := c.P.Pos(cs.Call.Pos())
+			what := "fmt." + o.Name() + "(" + clip(core.ExprStr(cs.Call.Args[idx]), 60) + ", ...) in " + fn
+			switch {
+			case core.ConstOf(cs.Pkg, cs.Call.Args[idx]) != nil:
+				c.OK(R, key, pos, what)
+			case constFmtTable[key] != "":
+				c.Tabled(R, key, pos, what, constFmtTable[key])
+			default:
+				c.Bad(R, key, pos, what, "the format string is computed at run time: text coming from the input is interpreted as formatting verbs")
+			}
+		}
+		if n == 0 {
+			c.Unresolved(R, "fmt formatting calls: none found")
+		}
+	}
+}
